@@ -2036,6 +2036,9 @@ class PX:
             return ZInt(v, bits, signed)
         if isinstance(fval, TypeRef) and int_type_of(fval) and len(args) == 1 and isinstance(args[0], Sym) and not kw:
             return Sym(f"{fval.short}({args[0].tag})")
+        if isinstance(fval, TypeRef) and fval.name in ("zigpy.types.LVBytes", "zigpy.types.basic.LVBytes", "bellows.types.LVBytes") and len(args) == 1 \
+                and isinstance(args[0], (bytes, bytearray)) and not kw:
+            return ZBytes(bytes(args[0]), 1, ("LVBytes",))  # trusted base: a byte string with a one-byte length prefix
         if isinstance(fval, TypeRef):
             short = fval.short
             if short in self.hier.parent or short.endswith(("Error", "Exception")):
@@ -2426,6 +2429,10 @@ class PX:
         if isinstance(v, Sym):
             return Sym(f"isinstance({v.tag}, {', '.join(_short(c) for c in classes)})")
         for c in classes:
+            if isinstance(v, ZBytes) and isinstance(c, (ClassRef, TypeRef)):
+                if (c.name if isinstance(c, ClassRef) else c.short) in v.type_names:
+                    return True
+                continue
             if isinstance(c, ClassRef):
                 if isinstance(v, Obj) and isinstance(v.cls, ClassRef) and c in v.cls.mro():
                     return True
@@ -2467,6 +2474,19 @@ class ZInt(int):
             return int(self).to_bytes(self.bits // 8, "little", signed=self.signed)
         except OverflowError:
             raise ValueError("out of range")
+
+
+class ZBytes(bytes):
+    """A zigpy length-prefixed byte string (trusted base): the payload, the width of its length prefix and the names of its class
+    and base classes (bellows' LVBytes32 is a subclass of LVBytes with a four-byte prefix)."""
+
+    def __new__(cls, value, prefix, type_names):
+        o = bytes.__new__(cls, value)
+        o.prefix, o.type_names = prefix, tuple(type_names)
+        return o
+
+    def serialize(self):
+        return len(self).to_bytes(self.prefix, "little") + bytes(self)
 
 
 def int_type_of(t):
